@@ -358,3 +358,68 @@ def tokenizer_agrees_with_the_svg_grammar(c, family):
         c.ensures('arc-flags-without-separators-in-every-repeated-group', not bad2)
         bad = bad + bad2
     c.bad_examples = bad[:3]
+
+
+@contract('C02', 'path.Path._parse_path', params=[{'_bounded_only': True}])
+def whole_d_strings_against_the_reference_semantics_sampled(c):
+    """bounded stand-in for the parser as a whole (the deductive part proves one command step at
+    a time and is undecided when a change reorganises the command loop): random d-strings -
+    every letter in both cases, 1..3 argument groups per letter (implicit repetition; after M/m
+    the further groups are lineto's), mixed separators - are parsed by the real parser and
+    interpreted by the reference semantics (specs/svg.py); numbers are small halves, so every
+    coordinate is computed exactly and the segments must be equal"""
+    import random
+    import svgpathtools.path as sp
+    from specs import svg
+    rng = random.Random(int(abs(c.real('seed')) * 1e9) % (2 ** 31))
+
+    def num():
+        return rng.randint(-12, 12) / 2.0
+
+    def fmt(x):
+        s = repr(x)
+        if s.endswith('.0') and rng.random() < 0.7:
+            s = s[:-2]
+        return s
+    letters = 'MmLlHhVvCcSsQqTtAaZz'
+    prog = [(rng.choice('Mm'), rng.randint(1, 3))]
+    for _ in range(rng.randint(2, 8)):
+        L = rng.choice(letters)
+        prog.append((L, 1 if L in 'Zz' else rng.randint(1, 3)))
+    text, state, want = [], {'cur': 0j, 'start': 0j, 'prev': ('other',)}, []
+    for (L, groups) in prog:
+        text.append(L)
+        for g in range(groups):
+            eff = L if g == 0 or L not in 'Mm' else ('L' if L == 'M' else 'l')
+            n = svg.ARITY[eff.upper()]
+            args = [num() for _ in range(n)]
+            if eff.upper() == 'A':
+                args[0], args[1] = abs(args[0]) + 0.5, abs(args[1]) + 0.5
+                args[3], args[4] = float(rng.randint(0, 1)), float(rng.randint(0, 1))
+            for i, a in enumerate(args):
+                tok = fmt(a) if not (eff.upper() == 'A' and i in (3, 4)) else str(int(a))
+                text.append((' ' if (tok[0] != '-' or rng.random() < 0.5) and (i or g or rng.random() < 0.5) else '') + tok + (',' if rng.random() < 0.3 and i < n - 1 else ''))
+            alts = [o for cond, o in svg.step(state, eff, args) if cond]
+            state, app, _ = alts[0]
+            want += app
+    d = ''.join(text)
+    out = c.outcome(lambda: sp.Path(d))
+    c.ensures('parses', out.kind == 'ok')
+    if out.kind != 'ok':
+        c.bad_examples = [d]
+        return
+    got = []
+    for s in out.value:
+        if isinstance(s, sp.Line):
+            got.append(('Line', s.start, s.end))
+        elif isinstance(s, sp.QuadraticBezier):
+            got.append(('Quad', s.start, s.control, s.end))
+        elif isinstance(s, sp.CubicBezier):
+            got.append(('Cubic', s.start, s.control1, s.control2, s.end))
+        else:
+            got.append(('Arc', s.start, None, None, s.rotation, bool(s.large_arc), bool(s.sweep), s.end))
+    want = [w if w[0] != 'Arc' else ('Arc', w[1], None, None, w[4], bool(w[5]), bool(w[6]), w[7]) for w in want]
+    ok = got == want
+    if not ok:
+        c.bad_examples = [d]
+    c.ensures('segments-are-those-of-the-reference-semantics', ok)
